@@ -1,8 +1,9 @@
 (* The single entry point of the correspondence drivers. *)
-From PV Require Import Common.Wire Frame.Dispatch.
+From PV Require Import Common.Wire Frame.Dispatch Chain.Dispatch.
 
 Definition run (c : list N) : list N :=
   match c with
   | 9 :: r => run_frame r
+  | 20 :: r => run_chain r
   | _ => MALFORMED
   end.
